@@ -73,6 +73,22 @@ fn make_object(ctx: &mut Ctx, rng: &mut Rng) -> Option<(ObjectFile, Json, &'stat
         let Ok(o) = eval_tree(&t, &objs) else { ctx.count("link-failed"); return None };
         let case = Json::obj().set("kind", "linked").set("tree", t.show()).set("debug", debug).set("sources", Json::Arr(files.iter().map(|f| Json::from(f.r.text.as_str())).collect()));
         Some((o, case, "linked"))
+    } else if rng.chance(1, 400) {
+        // a source longer than 64 KiB and/or with more than 65535 lines: byte offsets and line numbers stored with the
+        // debug symbols (and the label positions of an .external-declaring file) cross the 16-bit boundary
+        let debug = rng.chance(3, 4);
+        let g = gen_object(rng, &GenOpts { big_padding: false, ..GenOpts::default() }, debug)?;
+        let (pad, what) = match rng.below(4) {
+            0 => { let n = 65_000 + rng.usize(1_100); (format!("{}\n", ";".repeat(n)), format!("one comment line of {n} bytes")) }
+            1 => { let n = 65_400 + rng.usize(400); ("\n".repeat(n), format!("{n} empty lines")) }
+            2 => { let n = 700 + rng.usize(700); (format!("; {}\n", "padding ".repeat(12)).repeat(n), format!("{n} comment lines")) }
+            _ => { let n = 131_000 + rng.usize(200); (format!("{}\n", " ".repeat(n)), format!("one blank line of {n} bytes")) }
+        };
+        let text = format!("{pad}{}", g.r.text);
+        let o = match crate::asmutil::asm(&text, debug) { Ok(Ok(o)) => o, _ => return None };
+        ctx.count("objects.source-over-64KiB-or-65535-lines");
+        let case = Json::obj().set("kind", "assembled").set("debug", debug).set("source_prefix", what).set("source_after_prefix", g.r.text.as_str());
+        Some((o, case, if debug { "assembled-debug" } else { "assembled-nodebug" }))
     } else {
         let debug = rng.chance(2, 3);
         let opts = GenOpts { big_padding: rng.chance(1, 10), ..GenOpts::default() };
@@ -124,6 +140,6 @@ fn run18(ctx: &mut Ctx) {
 
 fn guard(m: &Merged, _t: Tier) -> Vec<String> {
     let mut out = vec![];
-    for k in ["roundtrip.linked", "roundtrip.assembled-debug", "roundtrip.assembled-nodebug", "objects.with-relocations", "objects.with-external-decl", "objects.multi-block", "sources.crlf", "sources.non-ascii", "sources.backslash", "sources.quote"] { need(m, &mut out, k, 20); }
+    for k in ["roundtrip.linked", "roundtrip.assembled-debug", "roundtrip.assembled-nodebug", "objects.with-relocations", "objects.with-external-decl", "objects.multi-block", "sources.crlf", "sources.non-ascii", "sources.backslash", "sources.quote", "objects.source-over-64KiB-or-65535-lines"] { need(m, &mut out, k, 20); }
     out
 }
